@@ -153,6 +153,9 @@ type RunOpts struct {
 	PriorRepo string
 	// PriorFile, with ReuseLinter, makes the Linter instance lint that single file (LintFile) first.
 	PriorFile string
+	// PriorArgs, with ReuseLinter and the command line entry point, makes the same Command object
+	// run Main with these arguments first.
+	PriorArgs []string
 	// After, when set, runs inside the simulation after the lint returned.
 	After func()
 }
@@ -198,15 +201,20 @@ func RunLint(w *World, c *Chooser, o RunOpts) *LintResult {
 	simrt.ResetChannels()
 	res.K = kern.Run(cfg, func() {
 		var shared *sharedLinter
-		if o.ReuseLinter && w.API != APIMain {
+		if o.ReuseLinter {
 			shared = &sharedLinter{}
 		}
-		if shared != nil && o.PriorRepo != "" {
+		if shared != nil && w.API == APIMain && o.PriorArgs != nil {
+			pw := *w
+			pw.Args = o.PriorArgs
+			lintOnce(&pw, &LintResult{}, shared)
+		}
+		if shared != nil && w.API != APIMain && o.PriorRepo != "" {
 			pw := *w
 			pw.API, pw.Files = APIRepo, []string{o.PriorRepo}
 			lintOnce(&pw, &LintResult{}, shared)
 		}
-		if shared != nil && o.PriorFile != "" {
+		if shared != nil && w.API != APIMain && o.PriorFile != "" {
 			pw := *w
 			pw.API, pw.Files = APIFile, []string{o.PriorFile}
 			lintOnce(&pw, &LintResult{}, shared)
@@ -233,6 +241,7 @@ func RunLint(w *World, c *Chooser, o RunOpts) *LintResult {
 
 // sharedLinter keeps one Linter (and its output buffers) across repeated executions.
 type sharedLinter struct {
+	cmd       *actionlint.Command
 	l         *actionlint.Linter
 	out, errb bytes.Buffer
 	err       error
@@ -247,7 +256,15 @@ func lintOnce(w *World, res *LintResult, shared *sharedLinter) {
 		if w.StdinR != nil {
 			in = w.StdinR
 		}
-		cmd := actionlint.Command{Stdin: in, Stdout: &out, Stderr: &lockedWriter{b: &errb}}
+		cmd := &actionlint.Command{}
+		if shared != nil {
+			// one Command object for several Main calls (an embedding program)
+			if shared.cmd == nil {
+				shared.cmd = cmd
+			}
+			cmd = shared.cmd
+		}
+		cmd.Stdin, cmd.Stdout, cmd.Stderr = in, &out, &lockedWriter{b: &errb}
 		res.Exit = cmd.Main(append([]string{"actionlint"}, w.Args...))
 	default:
 		opts := &actionlint.LinterOptions{
